@@ -44,6 +44,37 @@ var yieldFiles = []string{
 // they are hot guest-execution or decoding paths irrelevant to lifecycle.
 var skipFuncs = map[string]bool{}
 
+// engineFiles: in these files only the methods of the engine type itself
+// (compiled-module table management, close, NewModuleEngine, CompileModule) get
+// statement-level yields; code generation internals (name prefixes below) and
+// everything that executes guest code are left alone.
+var engineFiles = []string{
+	"internal/engine/wazevo/engine.go", "internal/engine/wazevo/engine_cache.go",
+	"internal/engine/interpreter/interpreter.go",
+}
+
+var engineSkipPrefixes = []string{"compile", "lower", "setLabel", "serialize", "deserialize"}
+
+func engineMethod(fd *ast.FuncDecl) bool {
+	if fd.Recv == nil || len(fd.Recv.List) != 1 {
+		return false
+	}
+	st, ok := fd.Recv.List[0].Type.(*ast.StarExpr)
+	if !ok {
+		return false
+	}
+	id, ok := st.X.(*ast.Ident)
+	if !ok || id.Name != "engine" {
+		return false
+	}
+	for _, p := range engineSkipPrefixes {
+		if strings.HasPrefix(fd.Name.Name, p) {
+			return false
+		}
+	}
+	return true
+}
+
 func contains(xs []string, x string) bool {
 	for _, y := range xs {
 		if y == x {
@@ -60,7 +91,7 @@ func main() {
 	}
 	root := os.Args[1]
 	all := map[string]bool{}
-	for _, l := range [][]string{syncFiles, osFiles, yieldFiles} {
+	for _, l := range [][]string{syncFiles, osFiles, yieldFiles, engineFiles} {
 		for _, f := range l {
 			all[f] = true
 		}
@@ -135,6 +166,17 @@ func rewrite(rel string, src []byte) ([]byte, error) {
 		for _, d := range f.Decls {
 			fd, ok := d.(*ast.FuncDecl)
 			if !ok || fd.Body == nil || skipFuncs[fd.Name.Name] {
+				continue
+			}
+			if instrumentBlock(fset, rel, fd.Body) {
+				needRT = true
+			}
+		}
+	}
+	if contains(engineFiles, rel) {
+		for _, d := range f.Decls {
+			fd, ok := d.(*ast.FuncDecl)
+			if !ok || fd.Body == nil || !engineMethod(fd) {
 				continue
 			}
 			if instrumentBlock(fset, rel, fd.Body) {
